@@ -175,6 +175,10 @@ func diffSnaps(a, b snap) []change {
 		x, inA := a[p]
 		y, inB := b[p]
 		switch {
+		case p == destRel && (!inA || !inB):
+			childSetChanged[parentOf(p)] = true
+			out = append(out, change{p, effDest, fmt.Sprintf("present %v -> present %v", inA, inB)})
+			continue
 		case !inA:
 			childSetChanged[parentOf(p)] = true
 			out = append(out, change{p, effCreated, typeName(y.Mode)})
